@@ -7,6 +7,7 @@ replays every case on the model and on the history spec, and judges
 import Kap.Spec.C09
 import Kap.Driver.C09Svc
 import Kap.Driver.C09Agg
+import Kap.Driver.C09Drain
 open Kap Kap.C09
 
 namespace Kap.C09.Drv
@@ -134,5 +135,6 @@ def main : IO Unit := do
   let bad := Kap.C09.AsyncDrv.selfTestFailures
   if !bad.isEmpty then throw (IO.userError s!"C09 driver self-test failed: {bad}")
   Kap.driverMain (fun id ls =>
-  if Kap.C09.AggDrv.isAgg ls then Kap.C09.AggDrv.judge id ls
+  if Kap.C09.DrainDrv.isK ls then Kap.C09.DrainDrv.judge id ls
+  else if Kap.C09.AggDrv.isAgg ls then Kap.C09.AggDrv.judge id ls
   else if isSvc ls then Kap.C09.SvcDrv.judge id ls else Kap.C09.Drv.judge id ls)
